@@ -16,7 +16,7 @@ TRUSTED = ["Model/Param.lean models IpmParamReader (index scan, row filter, colu
            "record list of the VBS model; mci_parameter_tables is re-translated from /repo on every run"]
 ASSUMPTIONS = ["single-byte codecs; csv module trusted for the CSV comparison"]
 
-FILL = 'abcdefghijklmnopqrstuvwxyzABCDEFGHIJKLMNOPQRSTUVWXYZ0123456789 .-,,"' + "\\\x00\x7f';%|\xa0"  
+FILL = 'abcdefghijklmnopqrstuvwxyzABCDEFGHIJKLMNOPQRSTUVWXYZ0123456789 .-,,"' + "\\\x00\x7f';%|\xa0\n\n"  
 
 
 def layouts():
@@ -47,7 +47,7 @@ def build(case):
                 if rng.random() < 0.3:
                     rec[pos] = rng.choice('abcdefghijxyz ßÄöü-,')
         rec[0:10] = '2023010100'
-        rec[10:11] = 'A'
+        rec[10:11] = rng.choice('AAI')        # the index entry's own active / inactive code does not select rows
         rec[11:19] = 'IP0000T1'
         rec[19:27] = t
         rec[243:246] = sub
